@@ -45,6 +45,7 @@ def run(ctx, prop, replay, spec, mc, families, trace_consts, corrupt, rule, n_bl
     kinds = {}
     samples = []
     first = None
+    confnotes = {}
     for fam in families:
         tf = os.path.join(ctx.tmp, "%s-%s.ndjson" % (spec, fam))
         rep = vdrive(ctx, "subsys", "--family", fam, "--seed", ctx.seed, "--n", n, "--blocks", blocks, "--out", tf, spec)
@@ -54,6 +55,10 @@ def run(ctx, prop, replay, spec, mc, families, trace_consts, corrupt, rule, n_bl
         seen = set()
         firstline = {}
         for (p, line, t, h) in viol:
+            if p.startswith("Conf."):
+                # a difference between the code and the specification that the listed property does not speak about
+                confnotes[p] = confnotes.get(p, 0) + 1
+                continue
             # only the first violating block of a history is judged: later blocks may differ as a consequence
             if firstline.setdefault(t, line) != line:
                 continue
@@ -99,6 +104,8 @@ def run(ctx, prop, replay, spec, mc, families, trace_consts, corrupt, rule, n_bl
         raise vlib.ToolFailure("self-test: no line suitable for corruption (workload too poor)")
     ctx.cov.update(states=states, transitions=trans, traces_validated_against_impl=tot["scenarios"], evaluations=tot["blocks"],
                    distinct_nontrivial=tot["nontrivial"], rule=rule, requests=tot["txs"], accepted=tot["accepted"], node_deaths=tot["dead"],
-                   per_kind_accepted_rejected=kinds, samples=samples)
+                   per_kind_accepted_rejected=kinds, samples=samples, conformance_notes=confnotes)
+    if confnotes:
+        ctx.notes.append("differences between the code and the specification that the listed property does not speak about (not violations): %s" % confnotes)
     ctx.assumptions += ["the projector and the event writer (harness/vapp) are the refinement mapping and are trusted; exercised by the corruption self-test",
                         "rejected transactions are not judged (safety-oriented modelling): only accepted ones must be allowed by the specification and have exactly its effect"]
